@@ -95,3 +95,26 @@ M("c03_only_start_reachable_checked", "C03", "ak/llparser.py",
 # (a mutant that ignores a match at the bottom of the DFS stack is equivalent: the cycle is found
 # one level deeper; one that only compares with the top of the stack makes the constructor itself
 # loop forever - the repo's test hangs - so neither is in the catalogue)
+
+# ---------------------------------------------------------------- C04
+M("c04_revert_line_start", "C04", "ak/llparser.py",
+  "            if cur_span_symbol is None:\n                # first token of the line starts on this line, not at the\n                # end of the last token of previous line\n                prev_end_pos = SrcPos(src_name, line_id, 1)\n",
+  "")
+M("c04_line_start_reset_inside_span", "C04", "ak/llparser.py",
+  "            if cur_span_symbol is None:\n                # first token of the line starts on this line, not at the\n                # end of the last token of previous line\n                prev_end_pos = SrcPos(src_name, line_id, 1)\n",
+  "            prev_end_pos = SrcPos(src_name, line_id, 1)\n")
+M("c04_span_end_off_by_one", "C04", "ak/llparser.py",
+  "                        value = \"\\n\".join(cur_span_lines)\n                        token_name = self.synonyms.get(\n                            cur_span_symbol, cur_span_symbol)\n                        new_end_pos = SrcPos(src_name, line_id, match.end() + 1)",
+  "                        value = \"\\n\".join(cur_span_lines)\n                        token_name = self.synonyms.get(\n                            cur_span_symbol, cur_span_symbol)\n                        new_end_pos = SrcPos(src_name, line_id, match.end())")
+M("c04_empty_node_at_previous_token", "C04", "ak/llparser.py",
+  "                    cur_src_pos = tokens[top.cur_token_pos].start_pos",
+  "                    cur_src_pos = tokens[max(0, top.cur_token_pos - 1)].end_pos")
+M("c04_lexical_error_previous_line", "C04", "ak/llparser.py",
+  "                        raise LexicalError(SrcPos(src_name, line_id, col), text_line)",
+  "                        raise LexicalError(SrcPos(src_name, line_id - (col == 0 and line_id > 1), col), text_line)")
+M("c04_orig_text_multiline_drops_middle_blank_lines", "C04", "ak/llparser.py",
+  "            for i in range(start_l+1, end_l):\n                result_lines.append(lines[i])",
+  "            for i in range(start_l+1, end_l):\n                if lines[i]:\n                    result_lines.append(lines[i])")
+M("c04_inner_node_end_from_last_nonempty_child", "C04", "ak/llparser.py",
+  "                self.start_pos = self.value[0].start_pos\n                self.end_pos = self.value[-1].end_pos",
+  "                self.start_pos = self.value[0].start_pos\n                self.end_pos = max((x.end_pos for x in self.value if x.value is not None), key=lambda p: p.coords, default=self.value[-1].end_pos)")
